@@ -406,7 +406,14 @@ class Tracer:
 def _is_getter_like(body):
     """small, call-free-ish functions whose return value is worth tracing through (getters, field readers)."""
     n = sum(1 for b in body.blocks if not b.get("cleanup"))
-    return n <= 6 and len(body.calls) <= 1
+    if n > 6 or len(body.calls) > 1:
+        return False
+    # an `async fn` wrapper only builds its coroutine: the call itself is the meaningful leaf
+    for b in body.blocks:
+        for st in b["st"]:
+            if st["s"] == "assign" and st["rv"]["k"] == "agg" and st["rv"]["ak"] in ("coroutine", "coroutine_closure"):
+                return False
+    return True
 
 
 def _detail_key(lf):
